@@ -1103,6 +1103,43 @@ func (te *TemplateEngine) cloneParagraphProperties(source *ParagraphProperties) 
 		}
 	}
 
+	// 复制段落边框
+	if source.ParagraphBorder != nil {
+		cloneLine := func(l *ParagraphBorderLine) *ParagraphBorderLine {
+			if l == nil {
+				return nil
+			}
+			c := *l
+			return &c
+		}
+		props.ParagraphBorder = &ParagraphBorder{
+			Top:    cloneLine(source.ParagraphBorder.Top),
+			Left:   cloneLine(source.ParagraphBorder.Left),
+			Bottom: cloneLine(source.ParagraphBorder.Bottom),
+			Right:  cloneLine(source.ParagraphBorder.Right),
+		}
+	}
+
+	// 复制网格对齐、分页控制和大纲级别
+	if source.SnapToGrid != nil {
+		props.SnapToGrid = &SnapToGrid{Val: source.SnapToGrid.Val}
+	}
+	if source.KeepNext != nil {
+		props.KeepNext = &KeepNext{Val: source.KeepNext.Val}
+	}
+	if source.KeepLines != nil {
+		props.KeepLines = &KeepLines{Val: source.KeepLines.Val}
+	}
+	if source.PageBreakBefore != nil {
+		props.PageBreakBefore = &PageBreakBefore{Val: source.PageBreakBefore.Val}
+	}
+	if source.WidowControl != nil {
+		props.WidowControl = &WidowControl{Val: source.WidowControl.Val}
+	}
+	if source.OutlineLevel != nil {
+		props.OutlineLevel = &OutlineLevel{Val: source.OutlineLevel.Val}
+	}
+
 	return props
 }
 
@@ -1111,6 +1148,11 @@ func (te *TemplateEngine) cloneRun(source *Run) Run {
 	newRun := Run{
 		Properties: te.cloneRunProperties(source.Properties),
 		Text:       Text{Content: source.Text.Content, Space: source.Text.Space},
+	}
+
+	// 复制分页符/换行符（如果有）
+	if source.Break != nil {
+		newRun.Break = &Break{Type: source.Break.Type}
 	}
 
 	// 复制图像（如果有）
